@@ -77,7 +77,7 @@ EVAL_MODEL = ["gen/CmpGen.v", "gen/ArithGen.v", "gen/OpsGen.v", "gen/EngineGen.v
 REFINE_FILES = EVAL_MODEL + ["proofs/AnchorsEngine.v", "proofs/EngineProofs.v", "proofs/EngineTheorems.v", "proofs/FactsProofs.v",
                              "proofs/ActionTheorems.v", "proofs/SnapInj.v", "proofs/C05Proof.v", "proofs/MemoProofs.v", "proofs/MemoKeep.v",
                              "proofs/StateTrack.v", "proofs/Refinement.v", "proofs/RefineTheorems.v", "proofs/MemoTheorems.v", "proofs/SnapContain.v", "proofs/Frame.v",
-                             "proofs/FrameTheorems.v", "proofs/Findings.v"]
+                             "proofs/FrameTheorems.v", "proofs/EndToEnd.v", "proofs/Findings.v"]
 EVAL_TRUST = ENGINE_TRUST + [
     "memoising evaluator coq/model/Eval.v (hand-written twin of ast/*.go Evaluate/Assign/Execute + WorkingMemory: values remembered per tree, "
     "reset by snapshot substring), fact store coq/model/Facts.v, method table coq/model/Methods.v (twin of the harness fact library) - validated against "
@@ -102,7 +102,7 @@ def eval_prop(pid, extra, theorems, expl):
 PROPS["C11"]["proof_files"] = REFINE_FILES + ["props/C11.v"]
 PROPS["C03"]["proof_files"] = REFINE_FILES + ["props/C03.v"]
 PROPS["C03"]["theorems"] = ["C03", "C03_semantic"]
-PROPS["C01"] = eval_prop("C01", ["proofs/AnchorsSitesMemo.v"], ["C01", "C01_flat", "C01_hypothesis_needed"],
+PROPS["C01"] = eval_prop("C01", ["proofs/AnchorsSitesMemo.v"], ["C01", "C01_flat", "C01_sample", "C01_hypothesis_needed"],
     "C01 is proved for the engine model WITH its working memory started from arbitrary memory contents, for every budget, flag, cancellation point and "
     "map order: engine_refines_spec (the memoising run equals the run that evaluates everything from scratch) + state tracking of the from-scratch run "
     "+ the protocol theorem C06. The hypothesis on invalidation is explicit and shown necessary by the D3 witness. Generated rule sets run on the real "
